@@ -81,6 +81,10 @@ def configs(p, rng):
     # must be the old solution bit for bit (commit 73617c7d rebalances only after a truncation)
     if p["trainer"] in CS:
         out.append({"shrink": 1, "prec": 1, "cachesize": 100000, "warm": 3, "ctype": "d"})
+    # warm = 4: REUSED TRAINER: the trainer object first trains to convergence, then trains again (fresh model object) with
+    # maxIterations = a handful; its report (R line) must not depend on the first call: compared with a fresh trainer (RF line)
+    out.append({"shrink": 1, "prec": 1, "cachesize": 100000, "warm": 4, "ctype": "d"})
+    out.append({"shrink": 0, "prec": 0, "cachesize": 0x4000000, "warm": 4, "ctype": "d"})
     return out
 
 def case_line(p, c, cid):
@@ -230,6 +234,7 @@ def allowances(p, c, K, it, coef, var, lohi):
     slack = 64 * EPSM * (asum + 1) + 4 * EPSM * steps * amax
     return tol, slack
 
+NSOLVE = {0: 1, 1: 2, 2: 2, 3: 2, 4: 3}      # QpSolver::solve calls per run (warm = 4: converged call, fresh reference, reused trainer)
 CERT_CODES = {1: "negative-eps", 2: "box", 3: "equality", 4: "kkt", 5: "bias"}
 
 def main():
@@ -268,17 +273,21 @@ def main():
     cf = os.path.join(tmpd, "cases.txt" if ck.replay is None and os.path.realpath(REPO) == os.path.realpath("/repo") and ck.tier == "quick" else "cases_%d.txt" % os.getpid())
     open(cf, "w").write("\n".join(case_line(p, c, cid) for p, c, cid in items) + "\n")
     rc, out, err = sh([exe, cf], timeout=3000, env={"OMP_NUM_THREADS": "1", "OPENBLAS_NUM_THREADS": "1"})
-    results = {}; hq = {}; hf = {}; hw = {}; hm = {}          # harness lines Q/F/M by (id, k), W by id (hex strings)
+    results = {}; hq = {}; hf = {}; hw = {}; hm = {}; hn = {}; r1 = {}; rfresh = {}          # harness lines Q/F/M by (id, k), W by id (hex strings)
     for l in out.split("\n"):
         t = l.split()
         if not t: continue
         if t[0] in ("Q", "F", "M"): {"Q": hq, "F": hf, "M": hm}[t[0]][(t[1], int(t[2]))] = t[4:]
         elif t[0] == "W": hw[t[1]] = t[3:]
+        elif t[0] == "N": hn[t[1]] = int(t[2])
+        elif t[0] in ("R1", "RF"):
+            na = int(t[8])
+            (r1 if t[0] == "R1" else rfresh)[t[1]] = (int(t[2]), int(t[3]), float.fromhex(t[4]), float.fromhex(t[5]), int(t[6]), float.fromhex(t[7]), [float.fromhex(v) for v in t[9:9 + na]])
         if t[0] == "R":
             na = int(t[8])
             results[t[1]] = (int(t[2]), int(t[3]), float.fromhex(t[4]), float.fromhex(t[5]), int(t[6]), float.fromhex(t[7]), [float.fromhex(v) for v in t[9:9 + na]])
         elif t[0] in ("EXC", "STDEXC"): results[t[1]] = l
-    nrep = 0; keys = {}; nacc = 0; groups = {}; Kc = {}; monfail = set()
+    nrep = 0; keys = {}; nacc = 0; groups = {}; Kc = {}; monfail = set(); nreuse = 0
     def rep(p, c, cid, key, msg):
         nonlocal nrep
         k2 = "%s:%s:bias%d:warm%d" % (key, p["trainer"], p["bias"], c["warm"]); keys[k2] = keys.get(k2, 0) + 1
@@ -298,6 +307,18 @@ def main():
         if id(p) not in Kc:
             Kd = kernel_matrix(p); Kc[id(p)] = (Kd, [[f32(v) for v in row] for row in Kd])
         bad, obj = monitor(p, c, Kc[id(p)][1 if c["ctype"] == "f" else 0], r)
+        if c["warm"] == 4:
+            # reused trainer: (ii) the iteration limit must be reported as such, (iii) the report must equal a fresh trainer's
+            nreuse += 1
+            fr = rfresh.get(cid); m = hn.get(cid); viol = r[3]
+            if fr is None or m is None: bad = bad + [("reuse:missing", "no reference run of a fresh trainer")]
+            else:
+                if r[1] == m and r[0] != 4 and fr[0] == 4:
+                    bad = [("reuse:stale-type", "second train() on a reused trainer performed exactly maxIterations = %d iterations (final KKT violation %r, eps %r) but reports type %d; a fresh trainer on the same problem reports %d (QpMaxIterationsReached); first call on that trainer: type %s"
+                            % (m, viol, p["eps"], r[0], fr[0], r1.get(cid, ("?",))[0]))] + bad
+                elif (r[0], r[1]) != (fr[0], fr[1]) or float(r[2]).hex() != float(fr[2]).hex() or float(r[3]).hex() != float(fr[3]).hex() or [float(v).hex() for v in r[6]] != [float(v).hex() for v in fr[6]] or float(r[5]).hex() != float(fr[5]).hex():
+                    bad = bad + [("reuse:depends-on-earlier-call", "solutionProperties / result of the second train() on a reused trainer (type %d, %d iterations, value %r, accuracy %r) differ from a fresh trainer with the same settings (type %d, %d iterations, value %r, accuracy %r)"
+                                  % (r[0], r[1], r[2], r[3], fr[0], fr[1], fr[2], fr[3]))]
         if bad: monfail.add(cid)
         for key, msg in bad[:1]: rep(p, c, cid, key, "%s [%s shrink=%d prec=%d cache=%s warm=%d]" % (msg, p["trainer"], c["shrink"], c["prec"], c["ctype"], c["warm"]))
         if r[0] == 1:
@@ -325,10 +346,10 @@ def main():
     for p, c, cid in items:
         r = results.get(cid)
         if r is None or isinstance(r, str): continue
-        n = p["n"]; nsolve = 2 if c["warm"] else 1
+        n = p["n"]; nsolve = NSOLVE[c["warm"]]
         if any((cid, k) not in hq or (cid, k) not in hf for k in range(nsolve)): continue      # reported below as missing
         for k in range(nsolve):
-            prev = hw.get(cid) if k == 1 else None
+            prev = hw.get(cid) if (k == 1 and c["warm"] in (1, 2, 3)) else None
             dl.append(driver_A(p, c, cid, k, prev))
         last = nsolve - 1
         var = [float.fromhex(v) for v in hf[(cid, last)]]
@@ -385,7 +406,7 @@ def main():
     for p, c, cid in items:
         r = results.get(cid)
         if r is None or isinstance(r, str): continue
-        n = p["n"]; nsolve = 2 if c["warm"] else 1
+        n = p["n"]; nsolve = NSOLVE[c["warm"]]
         miss = [k for k in range(nsolve) if (cid, k) not in hq or (cid, k) not in hf]
         if miss or (cid, nsolve) in hq:
             rep2(p, c, cid, "assembly:solve-calls", "the trainer entered QpSolver::solve %d times, expected %d" % (sum(1 for k in range(4) if (cid, k) in hq), nsolve)); continue
@@ -398,7 +419,7 @@ def main():
                 else:
                     j = next(i for i in range(len(a)) if a[i] != b[i])
                     msg = "%s(%d) of the problem the trainer built is %s (%r), the assembly model gives %s (%r)" % (fields[j // dims], j % dims, a[j], float.fromhex(a[j]), b[j], float.fromhex(b[j]))
-                rep2(p, c, cid, "assembly:" + ("warm-start" if k == 1 else "problem"), msg + " [solve call %d, %s shrink=%d prec=%d cache=%s warm=%d]" % (k, p["trainer"], c["shrink"], c["prec"], c["ctype"], c["warm"]),
+                rep2(p, c, cid, "assembly:" + ("warm-start" if (k == 1 and c["warm"] in (1, 2, 3)) else "problem"), msg + " [solve call %d, %s shrink=%d prec=%d cache=%s warm=%d]" % (k, p["trainer"], c["shrink"], c["prec"], c["ctype"], c["warm"]),
                      {"implementation_problem": hq[(cid, k)], "model_problem": mq.get("%s#%d" % (cid, k))}); break
         last = nsolve - 1; fin = [canon(v) for v in hf[(cid, last)]]
         if p["trainer"] == "epssvr":
@@ -448,11 +469,12 @@ def main():
     ck.cov["rule"] = ("trainer-level runs: CSvmTrainer (bias / no bias, class-specific C, one- and two-regulariser constructors, log-encoded regularisation parameters, weighted examples, float/double cache), EpsilonSvmTrainer, OneClassSvmTrainer on n=4..30 points "
                       "(integer/dyadic coordinates, duplicates, unbalanced classes), linear/Gaussian kernels, C in 0.125..1000, eps in 1e-2..1e-5, each problem under "
                       "{shrinking on/off} x {precomputed, default cache, 2-row cache} x {cold, warm}, plus warm starts after the regularisation constants were lowered by a factor 4 (clipping + rebalancing of the old solution); "
+                      "reused-trainer stage: a trainer that has converged once trains again with maxIterations = 2..4; its report (type, iterations, value, accuracy, result) must equal a fresh trainer's and pass every monitor whenever it claims accuracy; "
                       "every run: problem assembled by the extracted model == problem observed inside the trainer's QpSolver::solve call, and the extracted proved checker certify accepts the returned variables; non-trivial = at least 2 solver iterations")
     ck.cov["samples"] = [case_line(p, c, cid)[:300] for p, c, cid in items[:2]]
     ck.cov["traces_validated_against_impl"] = len(items)
     ck.cov["disagreements_checked"] = sum(keys.values())
-    ck.notes["accuracy_reached"] = nacc; ck.notes["monitor_failures_by_key"] = keys; ck.notes["runs_in_agreement_groups"] = nagree
+    ck.notes["reused_trainer_runs"] = nreuse; ck.notes["accuracy_reached"] = nacc; ck.notes["monitor_failures_by_key"] = keys; ck.notes["runs_in_agreement_groups"] = nagree
     by = {}
     for p, c, cid in items: by[p["trainer"]] = by.get(p["trainer"], 0) + 1
     ck.notes["runs_by_trainer"] = by
